@@ -1,6 +1,7 @@
 (* Pinned statements of the C13 theorems: a changed statement no longer type-checks here. *)
 From BT Require Import Base.Util Base.Float Model.RTree Model.BBIFile Model.BigWigWrite Model.Accept
-  Proofs.RTreeShape Proofs.AcceptParse Proofs.AcceptRules Proofs.AcceptParallel Proofs.WriterTotal.
+  Model.AcceptBed Proofs.RTreeShape Proofs.AcceptParse Proofs.AcceptRules Proofs.AcceptParallel Proofs.WriterTotal.
+From BT Require Model.BigBedWrite.
 From BT Require Properties.C13.
 Local Open Scope N_scope.
 Check (C13.C13_bw_accept_iff : forall fp o sizes input, opts_ok o = true ->
@@ -57,3 +58,18 @@ Check (C13.C13_zoom_selection_terminates : forall o, 2 <= o_bs o ->
 Check (C13.C13_writer_total : forall fp o sizes input, opts_ok o = true ->
   ((exists f, bw_write fp o sizes input = Ok f) \/ (exists k, bw_write fp o sizes input = Err k)) /\
   ((exists f, bw_write_multipass fp o sizes input = Ok f) \/ (exists k, bw_write_multipass fp o sizes input = Err k))).
+Check (C13.C13_bb_accept_iff_file : forall fp o sizes autosql input,
+  verdict (BigBedWrite.bb_write fp o sizes autosql input) = bb_file_rule o sizes autosql (bb_items input)
+  /\ verdict (BigBedWrite.bb_write_multipass fp o sizes autosql input) = bb_file_rule o sizes autosql (bb_items input)
+  /\ (bb_file_rule o sizes autosql (bb_items input) = Ok tt
+      <-> opts_ok o = true /\ has_nul (schema_text autosql) = false /\ input <> []
+          /\ stream_ok bb_good_val bb_good_pair (o_sort_all o) sizes [] None (bb_items input))).
+Check (C13.C13_bb_writer_total : forall fp o sizes autosql input,
+  ((exists f, BigBedWrite.bb_write fp o sizes autosql input = Ok f)
+   \/ (exists k, BigBedWrite.bb_write fp o sizes autosql input = Err k)) /\
+  ((exists f, BigBedWrite.bb_write_multipass fp o sizes autosql input = Ok f)
+   \/ (exists k, BigBedWrite.bb_write_multipass fp o sizes autosql input = Err k))).
+Check (C13.C13_bb_write_gen_verdict : forall sweep zoom_part o sizes autosql input,
+  (2 <= o_bs o -> 1 <= o_ips o -> forall outs sum ds zp, exists r, zoom_part outs sum ds zp = Ok r) ->
+  verdict (BigBedWrite.bb_write_gen sweep zoom_part o sizes autosql input)
+  = bb_file_rule o sizes autosql (bb_items input)).
